@@ -20,6 +20,7 @@ MODELLED_DECORATORS = {
     "functools.lru_cache", "functools.cache",  # process-lifetime objects: the global-state rule decides them
 }
 # special methods that change what attribute access, calls, truth tests, comparisons, iteration or formatting of a package object mean
+BASES_OK = {"enum.Enum", "enum.IntEnum", "abc.ABC", "typing.NamedTuple", "object"}
 SPECIAL_OK = {"__init__", "__repr__"}
 REFLECTION_BUILTINS = {"setattr", "delattr", "globals", "locals", "vars", "exec", "eval", "compile", "__import__", "breakpoint"}
 REFLECTION_EXT_PREFIXES = ("importlib", "sys.modules", "sys.settrace", "sys.setprofile", "types.MethodType", "types.FunctionType", "inspect.", "gc.", "ctypes", "unittest.mock", "mock.", "builtins.")
@@ -157,6 +158,7 @@ class _Scan:
                         self.flag(m, st, "import-time-store", ast.unparse(t)[:60], "module-level store into %s: executed at import, outside every analysed path" % ast.unparse(t)[:80])
                 if getattr(st, "value", None) is not None:
                     self.expr(m, st.value, None)
+                    self.callable_value(m, st, [t for t in targets if isinstance(t, ast.Name)])
                 continue
             if isinstance(st, ast.If) and (_is_main_guard(st) or _is_type_checking_guard(st)):
                 continue
@@ -172,6 +174,30 @@ class _Scan:
             if len(bs) > 1 and any(k in ("def", "class", "import") for k in kinds):
                 self.flag(m, bs[-1][1], "rebound-definition", "%s.%s" % (m.name, name), "%s is bound %d times at module level (%s): the rules would analyse a definition that is not the one in effect" % (name, len(bs), ", ".join(kinds)))
 
+    def callable_value(self, m, st, names):
+        """`X = f`, `X = wrap(f)`, `X = partial(f, ...)`, `X = lambda ...` at module level: a callable reachable only through a variable.
+        The call graph knows functions by their def; calls through X would resolve to nothing or, worse, to a look-alike."""
+        v = st.value
+        why = None
+        if isinstance(v, ast.Lambda):
+            why = "a lambda"
+        else:
+            cands = [v] if isinstance(v, (ast.Name, ast.Attribute)) else []
+            if isinstance(v, ast.Call):
+                cands = list(v.args) + [k.value for k in v.keywords]
+            for c in cands:
+                if isinstance(c, ast.Lambda):
+                    why = "a lambda handed to %s" % ast.unparse(v.func)[:40]
+                    break
+                dn = _dotted(c)
+                r = self.resolve(m, dn) if dn else None
+                if r is not None and r[0] == "func":
+                    why = ("the function %s" % r[1].qualname) if c is v else ("%s applied to the function %s" % (ast.unparse(v.func)[:40], r[1].qualname))
+                    break
+        if why:
+            for t in names:
+                self.flag(m, st, "callable-by-assignment", "%s.%s" % (m.name, t.id), "%s.%s is bound to %s: a callable that exists only as a variable is outside the call graph" % (m.name, t.id, why))
+
     # ---- class -------------------------------------------------------------------------------------------------
     def klass(self, m, c):
         for d in c.decorator_list:
@@ -184,6 +210,12 @@ class _Scan:
                     self.flag(m, c, "metaclass", "%s.%s" % (m.name, c.name), "metaclass %s: instance creation and attribute lookup of the class are programmable" % ast.unparse(k.value)[:60])
             else:
                 self.flag(m, c, "class-keyword", "%s.%s" % (m.name, c.name), "class keyword %s=..." % k.arg)
+        for b in c.bases:
+            dn = _dotted(b)
+            r = self.resolve(m, dn) if dn else None
+            ok = (r is not None and r[0] == "class") or (r is not None and r[0] == "ext" and r[1] in BASES_OK) or (r is None and dn in (["object"], ["Exception"], ["ValueError"], ["RuntimeError"], ["TypeError"], ["KeyError"]))
+            if not ok:
+                self.flag(m, c, "external-base", "%s(%s)" % (c.name, ast.unparse(b)[:40]), "%s inherits from %s: the methods it inherits (and what they override) are not in the package source" % (c.name, ast.unparse(b)[:60]))
         names = {}
         for st in c.body:
             self.n_sites += 1
